@@ -19,6 +19,9 @@ type unsupported struct{ msg string }
 // pathEnd stops the current path silently (infeasible / assumption false).
 type pathEnd struct{ why string }
 
+// blockedSignal: the current goroutine blocks forever (receive on an empty channel nobody sends to).
+type blockedSignal struct{ what string }
+
 // targetPanic is a panic raised by the program under test.
 type targetPanic struct {
 	v   value
@@ -261,7 +264,7 @@ func (in *Interp) runFrame(fr *frame) {
 		}
 		r := recover()
 		switch r.(type) {
-		case unsupported, pathEnd, internalAbort, killSignal:
+		case unsupported, pathEnd, internalAbort, killSignal, blockedSignal:
 			panic(r) // engine control flow: not visible to the program (a kill runs no deferred calls)
 		}
 		if s, ok := r.(string); ok {
@@ -330,7 +333,7 @@ func (fr *frame) runDefer(d *deferred) {
 		if !ok {
 			r := recover()
 			switch r.(type) {
-			case unsupported, pathEnd, internalAbort, killSignal:
+			case unsupported, pathEnd, internalAbort, killSignal, blockedSignal:
 				panic(r)
 			}
 			fr.panicking = true
@@ -695,7 +698,17 @@ func (in *Interp) spawn(fr *frame, instr *ssa.Go, fn value, args []value) {
 		in.goq = append(in.goq, func() { in.call(nil, instr.Pos(), fn, args) })
 		return
 	}
-	in.call(fr, instr.Pos(), fn, args)
+	// a goroutine that blocks forever is parked; its creator goes on
+	defer func() {
+		if r := recover(); r != nil {
+			if b, ok := r.(blockedSignal); ok {
+				in.path.noteAssumption("a spawned goroutine that blocks forever is parked (" + b.what + "); the others go on")
+				return
+			}
+			panic(r)
+		}
+	}()
+	in.call(nil, instr.Pos(), fn, args)
 }
 
 // ---- channels (concrete FIFOs)
@@ -725,7 +738,7 @@ func (in *Interp) chanRecv(ch *chanVal, elem types.Type) (value, bool) {
 	if ch.closed {
 		return in.zero(elem), false
 	}
-	panic(unsupported{"receive on empty channel would block (no scheduler)"})
+	panic(blockedSignal{"receive on an empty channel"})
 }
 
 func (in *Interp) selectOp(fr *frame, instr *ssa.Select) value {
